@@ -7,9 +7,9 @@ Open Scope Z_scope.
 
 (* what the executor observed for one operation *)
 Inductive oobs :=
-| OA (shed : bool) (fl mp rt am ae : Z)
+| OA (shed : bool) (fl mp rt am ae cm ce : Z)
     (* Allow: verdict; flying after; maxPass() and minRt() just before;
-       avgFlying after = am * 2^ae *)
+       avgFlying after = am * 2^ae; maxFlight() just before = cm * 2^ce *)
 | OR (done : bool) (fl am ae : Z).
     (* Pass / Fail: a promise existed; flying after; avgFlying after *)
 
@@ -17,6 +17,9 @@ Record scase := mkCase
   { ccfg : config; ct0 : Z;
     csame : bool;   (* ShedderGroup.GetShedder returned the same shedder twice (true when not via a group) *)
     cnop : bool;    (* the constructor returned a nopShedder *)
+    cwb : bool;     (* white-box run: maxPass / minRt / maxFlight / windowScale were observed
+                       (false for the runs through the REST / zRPC wrappers) *)
+    cws : Z * Z;    (* the constructor's windowScale = fst * 2^snd *)
     cops : list (op * oobs) }.
 
 Definition two30 : Q := inject_Z (2 ^ 30).
@@ -50,42 +53,48 @@ Definition near (s : state) (now cpu2 : Z) : bool :=
 Definition avg_close (a : Q) (am ae : Z) : bool :=
   Qle_bool (Qabs (a - dyadic am ae) * two30)%Q (Qabs a + 1)%Q.
 
+(* a float64 that went through a handful of roundings: relative error far below 2^-30 *)
+Definition rel_close (a : Q) (m e : Z) : bool :=
+  Qle_bool (Qabs (a - dyadic m e) * two30)%Q (Qabs a).
+
 Definition is_done (r : res) : bool := match r with RDone => true | _ => false end.
 Definition is_grant (r : res) : bool := match r with RAdmit => true | _ => false end.
 
 (* the model reproduces what the implementation did; a near-tie decision is
    skipped and the model follows the implementation's verdict from there *)
-Fixpoint agree_loop (s : state) (l : list (op * oobs)) : bool :=
+Fixpoint agree_loop (wb : bool) (s : state) (l : list (op * oobs)) : bool :=
   match l with
   | [] => true
   | (o, ob) :: l' =>
     if senabled s then
       match o, ob with
-      | OAllow now c1 c2, OA shed fl mp rt am ae =>
+      | OAllow now c1 c2, OA shed fl mp rt am ae cm ce =>
         let '(s1, h) := hot_check s now c1 in
         let d := h && high_thru s1 now c2 in
         let nr := h && near s1 now c2 in
         let v := if nr then shed else d in
         let s3 := bump (fst (allow_finish s1 now v)) in
-        (nr || eqb d shed) && (mp =? max_pass s now) && (rt =? min_rt s now)
-        && (fl =? flying s3) && avg_close (avgFlying s3) am ae && agree_loop s3 l'
+        (nr || eqb d shed)
+        && (negb wb || ((mp =? max_pass s now) && (rt =? min_rt s now) && rel_close (max_flight s now) cm ce))
+        && (fl =? flying s3) && avg_close (avgFlying s3) am ae && agree_loop wb s3 l'
       | OPass _ _, OR done fl am ae | OFail _, OR done fl am ae =>
         let '(s', r) := step s o in
         eqb done (is_done r) && (fl =? flying s') && avg_close (avgFlying s') am ae
-        && agree_loop s' l'
+        && agree_loop wb s' l'
       | _, _ => false
       end
     else
       let '(s', r) := step s o in
       match ob with
-      | OA shed _ _ _ _ _ => negb shed && is_grant r
+      | OA shed _ _ _ _ _ _ _ => negb shed && is_grant r
       | OR done _ _ _ => eqb done (is_done r)
-      end && agree_loop s' l'
+      end && agree_loop wb s' l'
   end.
 
 Definition s_agrees (c : scase) : bool :=
   eqb (cnop c) (negb (cenabled (ccfg c))) && csame c
-  && agree_loop (init (ccfg c) (ct0 c)) (cops c).
+  && (cnop c || negb (cwb c) || rel_close (window_scale (ccfg c)) (fst (cws c)) (snd (cws c)))
+  && agree_loop (cwb c) (init (ccfg c) (ct0 c)) (cops c).
 
 (* ------------------------------------------------------------------ *)
 (* The property on the observed history, with a reference computation of the
@@ -149,8 +158,8 @@ Fixpoint monotone (last : Z) (l : list (op * oobs)) : bool :=
     end
   end.
 
-Definition check_allow (excl : bool) (c : config) (t0 : Z) (mono : bool) (a : acc)
-           (now c1 c2 : Z) (shed : bool) (fl am ae : Z) : bool :=
+Definition check_allow (excl wb : bool) (c : config) (t0 : Z) (mono : bool) (a : acc)
+           (now c1 c2 : Z) (shed : bool) (fl cm ce : Z) : bool :=
   let th := cthreshold c in
   let raw := ref_raw c (ref_peak_min c t0 now (apass a)) in
   let cap := at_least raw 1%Q in
@@ -170,17 +179,21 @@ Definition check_allow (excl : bool) (c : config) (t0 : Z) (mono : bool) (a : ac
   && (if mono && over && q_ltb (cap * slack)%Q fb && q_ltb (cap * slack)%Q (aavg a)
          && negb (excl && (th =? cpuMax) && (c2 =? cpuMax))
       then shed else true)
+  (* the capacity estimate the code computed just before this Allow is the property's: peak per-bucket
+     pass count x minimum average latency (ms) over the completed buckets of the window, scaled from
+     per-bucket to per-second (x 10^6 ns-per-ms / bucket duration in ns), at least 1 *)
+  && (negb wb || negb mono || rel_close cap cm ce)
   (* conservation *)
   && (fl =? (if shed then afl a else afl a + 1)).
 
-Fixpoint prop_loop (excl : bool) (c : config) (t0 : Z) (mono : bool) (a : acc) (l : list (op * oobs)) : bool :=
+Fixpoint prop_loop (excl wb : bool) (c : config) (t0 : Z) (mono : bool) (a : acc) (l : list (op * oobs)) : bool :=
   match l with
   | [] => true
   | (o, ob) :: l' =>
     match o, ob with
-    | OAllow now c1 c2, OA shed fl _ _ am ae =>
-      check_allow excl c t0 mono a now c1 c2 shed fl am ae
-      && prop_loop excl c t0 mono
+    | OAllow now c1 c2, OA shed fl _ _ am ae cm ce =>
+      check_allow excl wb c t0 mono a now c1 c2 shed fl cm ce
+      && prop_loop excl wb c t0 mono
            (mkAcc (aidx a + 1)
                   (if shed then aadm a else (aidx a, now) :: aadm a)
                   (apass a)
@@ -192,7 +205,7 @@ Fixpoint prop_loop (excl : bool) (c : config) (t0 : Z) (mono : bool) (a : acc) (
       let ok := match st with Some _ => done | None => negb done end in
       let fl' := if done then afl a - 1 else afl a in
       ok && (fl =? fl')
-      && prop_loop excl c t0 mono
+      && prop_loop excl wb c t0 mono
            (mkAcc (aidx a + 1) (aadm a)
                   (match st with
                    | Some start => if done then (grid t0 (bucket_duration c) now, ceil_ms (now - start)) :: apass a else apass a
@@ -203,20 +216,20 @@ Fixpoint prop_loop (excl : bool) (c : config) (t0 : Z) (mono : bool) (a : acc) (
       let ok := match st with Some _ => done | None => negb done end in
       let fl' := if done then afl a - 1 else afl a in
       ok && (fl =? fl')
-      && prop_loop excl c t0 mono
+      && prop_loop excl wb c t0 mono
            (mkAcc (aidx a + 1) (aadm a) (apass a) fl' (aovers a) (ashed a) (if done then ref_avg (aavg a) fl' else aavg a) (alast a)) l'
     | _, _ => false
     end
   end.
 
 Definition never_shed (l : list (op * oobs)) : bool :=
-  forallb (fun x => match snd x with OA shed _ _ _ _ _ => negb shed | _ => true end) l.
+  forallb (fun x => match snd x with OA shed _ _ _ _ _ _ _ => negb shed | _ => true end) l.
 
 Definition prop_gen (excl : bool) (c : scase) : bool :=
   if cnop c then never_shed (cops c)
   else if cenabled (ccfg c) then
     csame c
-    && prop_loop excl (ccfg c) (ct0 c) (monotone (ct0 c) (cops c))
+    && prop_loop excl (cwb c) (ccfg c) (ct0 c) (monotone (ct0 c) (cops c))
                  (mkAcc 0 [] [] 0 [] false 0%Q (ct0 c)) (cops c)
   else false.   (* disabled, yet an adaptive shedder was built *)
 
@@ -224,6 +237,7 @@ Definition prop_gen (excl : bool) (c : scase) : bool :=
 (* wrappers (rest SheddingHandler, zrpc UnarySheddingInterceptor) and ShedderGroup *)
 
 Inductive wreq :=
+| WRestNoShedder (o : rest_outcome)      (* SheddingHandler(nil, ...): the handler is used as it is *)
 | WRest (v : verdict) (o : rest_outcome)
 | WRpc (v : verdict) (o : rpc_outcome).
 
@@ -247,14 +261,19 @@ Definition vis_eqb (a b : visible) : bool :=
   end.
 
 Definition wrap_model (q : wreq) : wrap_result :=
-  match q with WRest v o => rest_wrap v o | WRpc v o => rpc_wrap v o end.
+  match q with
+  | WRestNoShedder o => mkWR 1 0 0 (VisStatus (first_code (ro_codes o))) (ro_panics o)
+  | WRest v o => rest_wrap v o | WRpc v o => rpc_wrap v o
+  end.
+
+Definition w_allows (q : wreq) : Z := match q with WRestNoShedder _ => 0 | _ => 1 end.
 
 Definition w_agrees (l : list (wreq * wobs)) : bool :=
   forallb (fun x =>
              let m := wrap_model (fst x) in
              match snd x with
              | WO runs allows passes fails vis pn =>
-               (runs =? wr_runs m) && (allows =? 1) && (passes =? wr_pass m) && (fails =? wr_fail m)
+               (runs =? wr_runs m) && (allows =? w_allows (fst x)) && (passes =? wr_pass m) && (fails =? wr_fail m)
                && vis_eqb vis (wr_visible m) && eqb pn (wr_panics m)
              end) l.
 
@@ -262,8 +281,14 @@ Definition w_agrees (l : list (wreq * wobs)) : bool :=
 Definition w_prop_one (q : wreq) (ob : wobs) : bool :=
   match ob with
   | WO runs allows passes fails vis pn =>
-    (allows =? 1) &&
     match q with
+    | WRestNoShedder _ => allows =? 0
+    | _ => allows =? 1
+    end &&
+    match q with
+    | WRestNoShedder o =>
+      (runs =? 1) && (passes =? 0) && (fails =? 0) && eqb pn (ro_panics o)
+      && vis_eqb vis (VisStatus (hd 200 (ro_codes o)))
     | WRest VShed _ =>
       (runs =? 0) && (passes =? 0) && (fails =? 0) && vis_eqb vis (VisStatus 503) && negb pn
     | WRpc VShed _ =>
@@ -300,21 +325,152 @@ Definition g_prop (keys : list Z) (obs : list (Z * Z)) : bool :=
    forallb (fun p => forallb (fun q => eqb (fst p =? fst q) (snd p =? snd q)) l) l)
   && g_counts [] obs.
 
+(* ------------------------------------------------------------------ *)
+(* The wrappers in front of ONE long-lived REAL adaptive shedder, requests overlapping:
+   [WStart] sends a request through SheddingHandler / UnarySheddingInterceptor (its handler blocks
+   until released), [WFinish r] releases the handler of the request started by the r-th operation,
+   which then produces its outcome (status codes / error / panic); the wrapper's deferred function
+   resolves the promise.  Observed through a forwarding Shedder (which of Pass / Fail the wrapper
+   called, how often) and by reading the shedder's flying / avgFlying fields. *)
+Inductive wout := WoRest (o : rest_outcome) | WoRpc (o : rpc_outcome).
+Inductive wrop :=
+| WStart (now cpu : Z) (o : wout)
+| WFinish (r now : Z).
+Inductive wrobs :=
+| WSO (shed : bool) (allows runs : Z) (vis : visible) (fl am ae : Z)
+    (* start: the request came straight back; Allow calls made by the wrapper; handler entries; the answer if it came back; flying, avgFlying *)
+| WFO (done : bool) (passes fails : Z) (vis : visible) (pn : bool) (fl am ae : Z).
+    (* finish: the request was waiting in its handler; Pass / Fail calls on its promise; answer;
+       a panic reached the caller; flying, avgFlying *)
+
+Definition wout_resolution (o : wout) : resolution :=
+  match o with WoRest o => rest_resolution o | WoRpc o => rpc_resolution o end.
+Definition wout_wrap (v : verdict) (o : wout) : wrap_result :=
+  match o with WoRest o => rest_wrap v o | WoRpc o => rpc_wrap v o end.
+Definition wout_overload_class (o : wout) : bool :=
+  match o with
+  | WoRest o => last (ro_codes o) 200 =? 503
+  | WoRpc o => match o with GDeadline | GWrappedDeadline => true | _ => false end
+  end.
+Definition wout_panics (o : wout) : bool :=
+  match o with WoRest o => ro_panics o | WoRpc o => rpc_eqb o GPanic end.
+Definition wout_visible (o : wout) : visible :=
+  match o with WoRest o => VisStatus (hd 200 (ro_codes o)) | WoRpc o => VisRpc o end.
+Definition wout_overload_answer (o : wout) : visible :=
+  match o with WoRest _ => VisStatus 503 | WoRpc _ => VisExhausted end.
+
+(* the start operation a finish refers to *)
+Definition wr_start (all : list (wrop * wrobs)) (r : Z) : option (wout * bool) :=
+  if r <? 0 then None else
+  match nth_error all (Z.to_nat r) with
+  | Some (WStart _ _ o, WSO shed _ _ _ _ _ _) => Some (o, shed)
+  | _ => None
+  end.
+
+(* the history of Allow / Pass / Fail on the shedder; [by_model]: the resolution is the one the
+   wrapper model prescribes, otherwise the one that was observed *)
+Definition wr_core (by_model : bool) (all : list (wrop * wrobs)) (x : wrop * wrobs) : option (op * oobs) :=
+  match x with
+  | (WStart now cpu _, WSO shed _ _ _ fl am ae) => Some (OAllow now cpu cpu, OA shed fl 0 0 am ae 0 0)
+  | (WFinish r now, WFO done p f _ _ fl am ae) =>
+    let rs := if by_model then match wr_start all r with Some (o, _) => wout_resolution o | None => ResNone end
+              else if (p =? 1) && (f =? 0) then ResPass
+              else if (p =? 0) && (f =? 1) then ResFail else ResNone in
+    match rs with
+    | ResPass => Some (OPass r now, OR done fl am ae)
+    | ResFail => Some (OFail r, OR done fl am ae)
+    | ResNone => if done then None else Some (OPass r now, OR false fl am ae)
+    end
+  | _ => None
+  end.
+
+Fixpoint all_some {A} (l : list (option A)) : option (list A) :=
+  match l with
+  | [] => Some []
+  | None :: _ => None
+  | Some x :: l' => match all_some l' with Some r => Some (x :: r) | None => None end
+  end.
+
+Definition wr_scase (by_model : bool) (c : config) (t0 : Z) (l : list (wrop * wrobs)) : option scase :=
+  match all_some (map (wr_core by_model l) l) with
+  | Some ops => Some (mkCase c t0 true false false (0, 0) ops)
+  | None => None
+  end.
+
+(* the wrapper model reproduces every per-request observation *)
+Definition wr_model_one (all : list (wrop * wrobs)) (x : wrop * wrobs) : bool :=
+  match x with
+  | (WStart _ _ o, WSO shed allows runs vis _ _ _) =>
+    (allows =? 1) &&
+    if shed then let m := wout_wrap VShed o in (runs =? wr_runs m) && vis_eqb vis (wr_visible m)
+    else runs =? wr_runs (wout_wrap VGrant o)
+  | (WFinish r _, WFO done p f vis pn _ _ _) =>
+    match wr_start all r with
+    | Some (o, shed) =>
+      eqb done (negb shed) &&
+      (if done then let m := wout_wrap VGrant o in
+                    (p =? wr_pass m) && (f =? wr_fail m) && vis_eqb vis (wr_visible m) && eqb pn (wr_panics m)
+       else (p =? 0) && (f =? 0))
+    | None => false
+    end
+  | _ => false
+  end.
+
+(* the wrapper contract, judged on the observation alone: a shed request does not run its handler
+   and gets the overload answer; a let-in request runs it once and, when it ends - normally or by a
+   panic - its promise is resolved exactly once, with Fail exactly for the overload-class outcomes;
+   the handler's own answer / panic reaches the caller unchanged *)
+Definition wr_contract_one (all : list (wrop * wrobs)) (x : wrop * wrobs) : bool :=
+  match x with
+  | (WStart _ _ o, WSO shed allows runs vis _ _ _) =>
+    (allows =? 1) &&
+    if shed then (runs =? 0) && vis_eqb vis (wout_overload_answer o) else runs =? 1
+  | (WFinish r _, WFO done p f vis pn _ _ _) =>
+    match wr_start all r with
+    | Some (o, shed) =>
+      eqb done (negb shed) &&
+      (if done then (p + f =? 1) && (0 <=? p) && (0 <=? f) && eqb (f =? 1) (wout_overload_class o)
+                    && eqb pn (wout_panics o) && vis_eqb vis (wout_visible o)
+       else (p =? 0) && (f =? 0))
+    | None => false
+    end
+  | _ => false
+  end.
+
+Definition wr_agrees (c : config) (t0 : Z) (l : list (wrop * wrobs)) : bool :=
+  forallb (wr_model_one l) l &&
+  match wr_scase true c t0 l with Some sc => s_agrees sc | None => false end.
+
+Definition wr_prop (excl : bool) (c : config) (t0 : Z) (l : list (wrop * wrobs)) : bool :=
+  forallb (wr_contract_one l) l &&
+  match wr_scase false c t0 l with Some sc => prop_gen excl sc | None => false end.
+
 Inductive case :=
 | CShed (c : scase)
+| CMulti (l : list scase)     (* several shedders of one process, operations interleaved, Disable() in between *)
+| CWReal (c : config) (t0 : Z) (l : list (wrop * wrobs))
 | CWrap (l : list (wreq * wobs))
 | CGroup (keys : list Z) (obs : list (Z * Z)).
 
 Definition agrees (c : case) : bool :=
-  match c with CShed c => s_agrees c | CWrap l => w_agrees l | CGroup k o => g_agrees k o end.
+  match c with
+  | CShed c => s_agrees c | CMulti l => forallb s_agrees l | CWReal c t0 l => wr_agrees c t0 l
+  | CWrap l => w_agrees l | CGroup k o => g_agrees k o
+  end.
 
 (* the property at full strength (every configuration) *)
 Definition prop_ok (c : case) : bool :=
-  match c with CShed c => prop_gen false c | CWrap l => w_prop l | CGroup k o => g_prop k o end.
+  match c with
+  | CShed c => prop_gen false c | CMulti l => forallb (prop_gen false) l | CWReal c t0 l => wr_prop false c t0 l
+  | CWrap l => w_prop l | CGroup k o => g_prop k o
+  end.
 (* the property with shed_when_saturated's excluding hypothesis (Props.shed_when_saturated);
    used only to recognise the known finding: prop_ok fails, prop_ok_excl holds *)
 Definition prop_ok_excl (c : case) : bool :=
-  match c with CShed c => prop_gen true c | CWrap l => w_prop l | CGroup k o => g_prop k o end.
+  match c with
+  | CShed c => prop_gen true c | CMulti l => forallb (prop_gen true) l | CWReal c t0 l => wr_prop true c t0 l
+  | CWrap l => w_prop l | CGroup k o => g_prop k o
+  end.
 
 (* diagnostics: the model's own run *)
 Fixpoint model_loop (s : state) (ops : list op) : list (res * Z * Z * Z) :=
@@ -329,6 +485,9 @@ Fixpoint model_loop (s : state) (ops : list op) : list (res * Z * Z * Z) :=
 Definition model_obs (c : case) :=
   match c with
   | CShed c => (model_loop (init (ccfg c) (ct0 c)) (map fst (cops c)), [], [])
+  | CMulti l => (concat (map (fun c => model_loop (init (ccfg c) (ct0 c)) (map fst (cops c))) l), [], [])
+  | CWReal c t0 l =>
+    (match wr_scase true c t0 l with Some sc => model_loop (init c t0) (map fst (cops sc)) | None => [] end, [], [])
   | CWrap l => ([], map (fun x => wrap_model (fst x)) l, [])
   | CGroup k _ => ([], [], group_run [] k)
   end.
